@@ -80,6 +80,14 @@ theorem source_paths_send_exactly_once :
     (∀ p ∈ branchSendCounts, p.2 = [1]) ∧ elseSendCounts = [1] ∧ (∀ h ∈ helperSendCounts, h = [1]) ∧
     branchSendCounts.map (·.1) = handled := by decide +kernel
 
+/-- **Exactly one send on every exception path of the source**: when any statement of a branch of `_process` (or of
+    a helper it calls) raises, the responder calls already made on that path, those of every enclosing `finally`
+    block, and the catch-all `_send_status(request_number, SFTP_FAILURE)` in `start_subsystem` add up to exactly one
+    — nothing is sent before a statement that can still raise, and no `finally` block answers on its own.  This is
+    what the dispatcher model's `raises` case (a single STATUS FAILURE) stands on. -/
+theorem source_exception_paths_send_exactly_once :
+    ∀ p ∈ branchExcSendCounts, p.2 = [1] ∨ p.2 = [] := by decide +kernel
+
 theorem source_else_branch_emits_status : ∀ ty ∈ elseTypes, ty = cmdStatus := by decide +kernel
 
 /-- The hand-written dispatcher only emits, for each command, a packet type that the source's branch for that
